@@ -8,6 +8,7 @@ open AbtemVerif AbtemVerif.Proto AbtemVerif.ParamEnsemble
    unpack <args> <baseDims> → per argument `s` or `a<axis>:<expanded axes>`
    eval   <args>            → per member, row-major: `<product of weights>:<values seen, comma separated>` separated by `;`
    block  <args> <chunks ;-separated> <block multi-index> → args of the block transform in the same encoding
+   normw2 <intensity weights> → weights of an averaged distribution after _unpack_distributions (squared amplitude weights)
    compose <name:size|…> <applied name:size|…> → array shape and metadata labels of the composed ensemble, or err -/
 
 def arg? (s : String) : Option (Arg Int Int) :=
@@ -58,6 +59,10 @@ def handle : List String → String
       let picked := List.zipWith (fun (bl : List (List Int × List Int)) b => bl.getD b ([], [])) parts bi
       "ok " ++ (if a.isEmpty then "-" else "|".intercalate ((blockArgs a picked).map showArg))
     | _, _, _ => "bad-op"
+  | ["normw2", us] =>
+    match parseList? parseRat? us with
+    | some us => "ok " ++ showList showRat (normalizeMeanWeights us)
+    | none => "bad-op"
   | ["compose", named, applied] =>
     let parse (s : String) : Option (List (String × Nat)) :=
       if s = "-" then some [] else (s.splitOn "|").mapM fun t =>
